@@ -41,6 +41,9 @@ pub struct Case {
     pub base: Base,
     pub damage: Damage,
     pub which_file: u8,
+    /// damages applied (in order) to the chosen file before `damage` (e.g. an attribute deleted, then every truncation)
+    #[serde(default)]
+    pub pre: Vec<Damage>,
 }
 
 const BUDGET_CPU_S: f64 = 10.0;
@@ -314,7 +317,18 @@ pub fn check(c: &Case) -> CheckResult {
         Base::Generated { model, layout } => fx::render(model, layout).into_iter().map(|s| s.into_bytes()).collect(),
         Base::Raw(b) => vec![b.clone()],
     };
+    let mut docs = docs;
     let target = c.which_file as usize % docs.len();
+    // earlier damages (the truncations below then start where the first of them touched the file)
+    let mut first_touched: Option<usize> = None;
+    for d in &c.pre {
+        let (bytes, touched) = apply(&docs[target], d);
+        if let Some(t) = touched.iter().min() {
+            first_touched = Some(first_touched.map_or(*t, |f| f.min(*t)));
+        }
+        docs[target] = bytes;
+    }
+    let docs = docs;
     let base_doc = &docs[target];
     let spans = element_spans(&scan(base_doc));
     let label = match &c.base {
@@ -324,7 +338,12 @@ pub fn check(c: &Case) -> CheckResult {
     };
     if c.damage == Damage::AllTruncations {
         let mut damaged = docs.clone();
-        for k in 0..=base_doc.len() {
+        // (prefixes that end before the first earlier damage are prefixes of the undamaged document, covered elsewhere)
+        let from = if c.pre.is_empty() { 0 } else { first_touched.unwrap_or(0).saturating_sub(2).min(base_doc.len()) };
+        if !c.pre.is_empty() {
+            pass.classes.push("damaged-then-all-truncations");
+        }
+        for k in from..=base_doc.len() {
             damaged[target] = base_doc[..k].to_vec();
             let paths = write_docs(&damaged, "t");
             let place = where_is(&spans, k);
@@ -396,6 +415,63 @@ fn damage() -> BoxedStrategy<Damage> {
     ]
     .boxed()
 }
+fn element_damage() -> BoxedStrategy<Damage> {
+    let byte = prop::sample::select(vec![b'<', b'>', b'&', b'"', b'/', 0u8, 0xFF, b'=', b' ']);
+    prop_oneof![
+        3 => any::<u16>().prop_map(Damage::DeleteSubtree),
+        4 => any::<u16>().prop_map(Damage::DeleteStartTag),
+        4 => any::<u16>().prop_map(Damage::DeleteEndTag),
+        6 => any::<u16>().prop_map(Damage::DeleteAttr),
+        2 => vec((any::<u16>(), byte), 1..3).prop_map(Damage::Corrupt),
+    ]
+    .boxed()
+}
+fn damage_no_paths() -> BoxedStrategy<Damage> {
+    damage().prop_map(|d| if matches!(d, Damage::Paths(_)) { Damage::None } else { d }).boxed()
+}
+
+/// markup tokens for the bounded-exhaustive "token documents": every element and attribute the loader interprets, in
+/// complete and defective forms (missing ID / ID-REF), text, and stray markup characters
+const TOKENS: [&[u8]; 30] = [
+    b"<fx:PDU ID=\"P\">",
+    b"<fx:PDU>",
+    b"</fx:PDU>",
+    b"<fx:FRAME ID=\"F\">",
+    b"<fx:FRAME>",
+    b"</fx:FRAME>",
+    b"<ho:SHORT-NAME>",
+    b"</ho:SHORT-NAME>",
+    b"x",
+    b"7",
+    b"<fx:BYTE-LENGTH>",
+    b"</fx:BYTE-LENGTH>",
+    b"<fx:SIGNAL-INSTANCE ID=\"S\">",
+    b"</fx:SIGNAL-INSTANCE>",
+    b"<fx:SEQUENCE-NUMBER>",
+    b"<fx:SIGNAL-REF ID-REF=\"S_BOOL\"/>",
+    b"<fx:SIGNAL-REF/>",
+    b"<fx:PDU-INSTANCE ID=\"I\">",
+    b"</fx:PDU-INSTANCE>",
+    b"<fx:PDU-REF ID-REF=\"P\"/>",
+    b"<fx:MANUFACTURER-EXTENSION>",
+    b"</fx:MANUFACTURER-EXTENSION>",
+    b"<APPLICATION_ID>",
+    b"<fx:SIGNAL ID=\"S\">",
+    b"</fx:SIGNAL>",
+    b"<fx:CODING>",
+    b"</fx:CODING>",
+    b"<ho:DESC>",
+    b"<",
+    b"&",
+];
+fn token(i: usize) -> &'static [u8] {
+    if i < TOKENS.len() {
+        TOKENS[i]
+    } else {
+        b""
+    }
+}
+
 fn base() -> BoxedStrategy<Base> {
     prop_oneof![
         2 => (0u8..2).prop_map(Base::Sample),
@@ -406,7 +482,10 @@ fn base() -> BoxedStrategy<Base> {
 
 pub fn run(run: &Run) {
     run.rule(
-        "base documents = the repository's two sample files and generated FIBEX document sets (C11 generator); damage = EVERY truncation offset of the \
+        "base documents = the repository's two sample files and generated FIBEX document sets (C11 generator, ids also longer than 4 bytes and \
+         multi-byte); token documents = EVERY sequence of at most 4 (thorough: 5) tokens from 30 markup tokens (each interpreted element in complete \
+         and defective form, text, stray '<' and '&'); combined damage = up to three damages applied in sequence, and 'one or two element-level \
+         damages, then EVERY truncation offset from the first damage on'; damage = EVERY truncation offset of the \
          base document (sample files: enumerated section; generated documents: enumerated inside the case, counted in sub_evaluations), deletion of one \
          element subtree / start tag / end tag / attribute, 1..4 corrupted bytes (markup characters, NUL, invalid UTF-8), duplicated slices, one damaged \
          member of a multi-file set, and special path sets (nonexistent, empty string, directory, empty file, whitespace, no paths); every load runs in \
@@ -425,7 +504,7 @@ pub fn run(run: &Run) {
             run.enumerate(if s == 0 { "sample-truncations:dlt-messages.xml" } else { "sample-truncations:robustness.xml" }, blocks, true, |b| {
                 let mut rep = BlockReport::default();
                 for k in b * 64..((b + 1) * 64).min(len) {
-                    let case = Case { base: Base::Sample(s), damage: Damage::TruncateAt(k as u32), which_file: 0 };
+                    let case = Case { base: Base::Sample(s), damage: Damage::TruncateAt(k as u32), which_file: 0, pre: vec![] };
                     rep.evaluations += 1;
                     match check(&case) {
                         Ok(p) => rep.nontrivial += p.nontrivial as u64,
@@ -450,10 +529,59 @@ pub fn run(run: &Run) {
         "generated-all-truncations",
         run.cases(160, 3_000),
         0.5,
-        || (fx::model(), fx::layout(), any::<u8>()).prop_map(|(model, layout, which_file)| Case { base: Base::Generated { model, layout }, damage: Damage::AllTruncations, which_file }),
+        || (fx::model(), fx::layout(), any::<u8>()).prop_map(|(model, layout, which_file)| Case { base: Base::Generated { model, layout }, damage: Damage::AllTruncations, which_file, pre: vec![] }),
         check,
     );
-    run.random("damage", run.cases(30_000, 600_000), 0.3, || (base(), damage(), any::<u8>()).prop_map(|(base, damage, which_file)| Case { base, damage, which_file }), check);
+    // one or two element-level damages, then every truncation offset from the first damage on
+    run.random(
+        "damaged-then-all-truncations",
+        run.cases(240, 5_000),
+        0.3,
+        || {
+            let small_base = prop_oneof![1 => Just(Base::Sample(1)), 6 => (fx::model(), fx::layout()).prop_map(|(model, layout)| Base::Generated { model, layout })];
+            (small_base, vec(element_damage(), 1..3), any::<u8>()).prop_map(|(base, pre, which_file)| Case { base, damage: Damage::AllTruncations, which_file, pre })
+        },
+        check,
+    );
+    // two or three damages combined
+    run.random(
+        "combined-damage",
+        run.cases(10_000, 200_000),
+        0.3,
+        || (base(), vec(damage_no_paths(), 1..3), damage_no_paths(), any::<u8>()).prop_map(|(base, pre, damage, which_file)| Case { base, damage, which_file, pre }),
+        check,
+    );
+    // every document that is a sequence of at most TOKENS_LEN markup tokens (bounded-exhaustive)
+    let tlen = run.tier.pick(4, 5) as u32;
+    let nt = TOKENS.len() as u64 + 1;
+    run.enumerate("token-documents", nt * nt, true, |b| {
+        let mut rep = BlockReport::default();
+        let (t0, t1) = ((b / nt) as usize, (b % nt) as usize);
+        let rest = nt.pow(tlen - 2);
+        for r in 0..rest {
+            let mut doc = token(t0).to_vec();
+            doc.extend_from_slice(token(t1));
+            let mut x = r;
+            for _ in 0..tlen - 2 {
+                doc.extend_from_slice(token((x % nt) as usize));
+                x /= nt;
+            }
+            let case = Case { base: Base::Raw(doc), damage: Damage::None, which_file: 0, pre: vec![] };
+            rep.evaluations += 1;
+            match check(&case) {
+                Ok(_) => rep.nontrivial += 1,
+                Err(v) => {
+                    rep.violation = Some((json!(case), v));
+                    break;
+                }
+            }
+            if b == 40 && r == 77 {
+                rep.sample = Some(json!(case));
+            }
+        }
+        rep
+    });
+    run.random("damage", run.cases(30_000, 600_000), 0.3, || (base(), damage(), any::<u8>()).prop_map(|(base, damage, which_file)| Case { base, damage, which_file, pre: vec![] }), check);
     run.extra("loads_in_child_processes", json!(LOADS.load(Ordering::Relaxed)));
     if STALLED.load(Ordering::Relaxed) {
         run.inconclusive("an evaluator child stalled without consuming CPU (machinery problem, no verdict)".to_string());
